@@ -16,7 +16,7 @@ import (
 var Shapes = []string{
 	"text", "textcrlf", "html", "cyrillic", "cjk", "utf8big", "dna", "numeric", "base64",
 	"elfx86", "pe", "elfarm64", "elfbogus", "pebogus", "machobogus", "wav", "bmp", "ppm", "runs", "zeros",
-	"skewed", "raredom", "ramp255", "ramp256", "smallalpha", "periodic", "random", "magicmix", "repeatblocks", "sorted", "utf8dirty", "longruns", "farmatch", "crlfcut", "constchunks",
+	"skewed", "raredom", "ramp255", "ramp256", "smallalpha", "periodic", "random", "magicmix", "repeatblocks", "sorted", "utf8dirty", "longruns", "farmatch", "crlfcut", "constchunks", "randtext", "bigvocab", "fsdstress", "ffmix",
 }
 
 var words = strings.Fields(`the of and to a in is that it was for on are as with his they at be this from have or by one had not but what all were
@@ -36,6 +36,21 @@ algorithm entropy transform bitstream dictionary Burrows Wheeler Huffman arithme
 func Make(shape string, n int, seed int64) []byte {
 	r := core.Derive(seed, "gen", shape, n)
 	b := make([]byte, 0, n+64)
+	if strings.HasPrefix(shape, "alphau:") {
+		// exactly k distinct symbols, UNIFORMLY distributed (all k*k adjacent pairs occur for n >> k*k)
+		k := 1
+		fmt.Sscanf(shape[7:], "%d", &k)
+		k = max(1, min(k, 256))
+		base := r.Intn(257 - k)
+		for i := 0; i < n; i++ {
+			if i < k {
+				b = append(b, byte(base+i))
+			} else {
+				b = append(b, byte(base+r.Intn(k)))
+			}
+		}
+		return b
+	}
 	if strings.HasPrefix(shape, "alpha:") {
 		// exactly k distinct symbols (when n >= k), mildly skewed: boundary cases of the alphabet / frequency headers
 		k := 1
@@ -230,6 +245,73 @@ func Make(shape string, n int, seed int64) []byte {
 			}
 			t := Make("text", []int{16384, 32768, 100}[r.Intn(3)], seed+int64(len(b)))
 			b = append(b, t...)
+		}
+	case "randtext":
+		// one very long literal run (65 % incompressible bytes) followed by compressible text: the multi-byte
+		// literal-length forms of the LZ family inside a block that is still worth compressing
+		rl := n * 65 / 100
+		b = make([]byte, rl)
+		r.Fill(b)
+		b = append(b, Make("text", n-rl, seed+5)...)
+	case "bigvocab":
+		// text whose vocabulary is much larger than the dictionaries (tens of thousands of distinct words, each used twice)
+		nw := max(n/14, 1)
+		mk := func(i int) []byte {
+			w := make([]byte, 0, 8)
+			x := i*2654435761 + 12345
+			for k := 0; k < 6; k++ {
+				w = append(w, byte('a'+(x>>uint(5*k))%26))
+			}
+			return w
+		}
+		for pass := 0; pass < 2 && len(b) < n; pass++ {
+			for i := 0; i < nw && len(b) < n; i++ {
+				b = append(b, mk(i)...)
+				if i%11 == 10 {
+					b = append(b, '\n')
+				} else {
+					b = append(b, ' ')
+				}
+			}
+		}
+	case "fsdstress":
+		// smooth ramps where the multimedia detector samples (so that delta coding is selected) and large jumps elsewhere
+		// (every byte then needs the 2-byte escape form: the output margin is exhausted)
+		b = make([]byte, n)
+		smooth := func(i int) bool {
+			return (i >= n/10 && i < n/5) || (i >= 2*n/5 && i < 3*n/5) || i >= 9*n/10
+		}
+		off := r.Intn(2)
+		for i := range b {
+			if smooth(i) {
+				b[i] = byte(i >> 3)
+			} else if (i+off)%2 == 0 {
+				b[i] = 20
+			} else {
+				b[i] = 220
+			}
+		}
+	case "ffmix":
+		// zero runs, the escape-prone byte values 0xFE / 0xFF and ordinary literals, ending on a high byte:
+		// stresses the "how much room is left" checks of the run-length stages
+		for len(b) < n {
+			switch r.Intn(6) {
+			case 0:
+				for k := r.Intn(5); k > 0; k-- {
+					b = append(b, 0)
+				}
+			case 1, 2:
+				b = append(b, byte(0xFE+r.Intn(2)))
+			default:
+				b = append(b, byte(1+r.Intn(250)))
+			}
+		}
+		if n > 0 {
+			b = b[:n]
+			b[n-1] = byte(0xFE + r.Intn(2))
+			if n > 2 && r.Intn(2) == 0 {
+				b[n-2] = 0xFF
+			}
 		}
 	case "dna":
 		col := 0
@@ -562,21 +644,34 @@ func code(r *core.Rng, b []byte, machine uint16) {
 		case 0:
 			if i+5 <= n {
 				b[i] = 0xE8
-				binary.LittleEndian.PutUint32(b[i+1:], uint32(int32(r.Intn(1<<16)-1<<15)))
+				disp := uint32(int32(r.Intn(1<<16) - 1<<15))
+				if r.Intn(12) == 0 {
+					// boundary displacements of the jump converter (sign byte 00 / FF, escape value)
+					disp = []uint32{0xFF000000, 0x00FFFFFF, 0xFFFFFFFF, 0xFF000001, 0x01000000, 0, 0x00000001, 0xFEFFFFFF, 0x80000000, 0x7FFFFFFF}[r.Intn(10)]
+				}
+				binary.LittleEndian.PutUint32(b[i+1:], disp)
 				i += 5
 				continue
 			}
 		case 1:
 			if i+5 <= n {
 				b[i] = 0xE9
-				binary.LittleEndian.PutUint32(b[i+1:], uint32(r.Intn(1<<14)))
+				disp := uint32(r.Intn(1 << 14))
+				if r.Intn(12) == 0 {
+					disp = []uint32{0xFF000000, 0x00FFFFFF, 0xFFFFFFFF, 0xFF000001, 0x01000000, 0xFFFFFF00}[r.Intn(6)]
+				}
+				binary.LittleEndian.PutUint32(b[i+1:], disp)
 				i += 5
 				continue
 			}
 		case 2:
 			if i+6 <= n {
 				b[i], b[i+1] = 0x0F, byte(0x80+r.Intn(16))
-				binary.LittleEndian.PutUint32(b[i+2:], uint32(r.Intn(1<<12)))
+				disp := uint32(r.Intn(1 << 12))
+				if r.Intn(12) == 0 {
+					disp = []uint32{0xFF000000, 0x00FFFFFF, 0xFFFFFFFF, 0xFF000001}[r.Intn(4)]
+				}
+				binary.LittleEndian.PutUint32(b[i+2:], disp)
 				i += 6
 				continue
 			}
